@@ -40,11 +40,31 @@ def showOptHex : Option Bytes → String
   | none => "-"
   | some b => toHex b
 
+/-- `R<i>` / `W<n>` / `F` of an observed trace (the bytes of a write are not observed, only their number) -/
+def parseWEv (s : String) : Option WEv :=
+  match s.toList with
+  | ['F'] => some .flush
+  | 'R' :: rest => (String.ofList rest).toNat?.map .targetRecv
+  | 'W' :: rest => (String.ofList rest).toNat?.map (fun n => .write (List.replicate n 0))
+  | _ => none
+
+def showWEv : WEv → String
+  | .targetRecv i => s!"R{i}"
+  | .write b => s!"W{b.length}"
+  | .flush => "F"
+
+/-- cut `body` into chunks of the given sizes (`none` unless they add up to the body) -/
+def cutChunks (body : Bytes) : List Nat → Option (List Bytes)
+  | [] => if body = [] then some [] else none
+  | n :: rest => if n ≤ body.length then (cutChunks (body.drop n) rest).map (body.take n :: ·) else none
+
+def isListPrefix (a b : List Bytes) : Bool := a.length ≤ b.length && b.take a.length == a
+
 /-- `http <cs> <ss> <accept…> <content-type…> <rbp> <lockstep> <msgs…> <end>
-      => <status> <content-type|-> <body> <payloads…> <records…> <flush>` -/
+      => <status> <content-type|-> <body> <payloads…> <records…> <flush> <trace R<i>/W<n>/F…> <chunk sizes…>` -/
 def handleHTTP (i o : List String) : String :=
   match i, o with
-  | [_, cs, ss, acc, ct, rbp, _lock, msgs, e], [status, rct, body, payloads, recs, flush] =>
+  | [_, cs, ss, acc, ct, rbp, _lock, msgs, e], [status, rct, body, payloads, recs, flush, trace, chunks] =>
     match parseHexList acc, parseHexList ct, parseEnd e, status.toNat?, parseHex body, parseHexList payloads with
     | some acc, some ct, some e, some status, some body, some ps =>
       let cs := cs = "1"
@@ -71,6 +91,15 @@ def handleHTTP (i o : List String) : String :=
       else if status = 200 && ss && !cs && !(if rct = toHex sseMime then sseClean body else lineRest body = []) then
         "VIOL stray-bytes-after-records (the stream body does not end at a record boundary: something other than a framed record was written)"
       else if status = 200 && ss && !cs && flush ≠ "ok" then "VIOL not-flushed-per-message"
+      else if status = 200 && ss && !cs && (match (parseListStr trace).mapM parseWEv with
+          | some evs => !flushedBeforeRecv false evs
+          | none => true) then
+        s!"VIOL not-flushed-before-next-message trace={trace} (something written is still unflushed when the target is asked for the next message, or at the end of the stream)"
+      else if status = 200 && ss && !cs && (match cutChunks body ((parseListStr chunks).filterMap String.toNat?) with
+          | some cs => !(List.range (cs.length + 1)).all (fun j =>
+              isListPrefix (if rct = toHex sseMime then readSSEChunked (cs.take j) else readLinesChunked (cs.take j)) ps)
+          | none => false) then
+        "VIOL partial-record-surfaced (after some chunk the client held records that are not a prefix of the messages sent)"
       -- model = implementation
       else if status ≠ exp.status then s!"DIFF model=status:{exp.status}"
       else if (match exp.ct with | some c => rct != toHex c | none => rct != "-" && exp.body.isSome) then
@@ -78,6 +107,12 @@ def handleHTTP (i o : List String) : String :=
       else if (match exp.body with | some b => b != body | none => false) then s!"DIFF model=body:{showOptHex exp.body}"
       else if status = 200 && ss && !cs && (if isSSE then parseSSE body else splitLines body) ≠ ps then
         "DIFF model=parser (the model's record reader does not return the payloads)"
+      else if status = 200 && ss && !cs && (parseListStr trace) ≠ (streamTrace isSSE ps).map showWEv then
+        s!"DIFF model=trace:{(streamTrace isSSE ps).map showWEv} (write/flush events of the response loop)"
+      else if status = 200 && ss && !cs && (match cutChunks body ((parseListStr chunks).filterMap String.toNat?) with
+          | some cs => (if isSSE then readSSEChunked cs else readLinesChunked cs) ≠ ps
+          | none => true) then
+        "DIFF model=chunked-reader (the chunked reader fed the client's chunks does not return the payloads)"
       else
         let nt := if (status = 200 && ss && msgsL ≠ []) || sseReq then " nt" else ""
         let br :=
@@ -103,20 +138,54 @@ def parseClose (s : String) : Option (Nat × Bytes) :=
     | _ => none
   | _ => none
 
+/-- `<codec>[~<variant>]` → codec letters and the extra Accept value of the handshake -/
+def parseWSCodec (s : String) : Option (String × List Bytes) :=
+  let ok (c : String) : Bool := c ∈ ["j", "b", "jj", "jb", "bj", "bb"]
+  match s.splitOn "~" with
+  | [c] => if ok c then some (c, []) else none
+  | [c, v] =>
+    if !ok c then none
+    else match v with
+      | "e" => some (c, [sseMime])
+      | "s" => some (c, [ascii "*/*"])
+      | "q" => some (c, [ascii "text/event-stream;q=0.9, application/json;q=0.8"])
+      | "E" => some (c, [ascii "TEXT/EVENT-STREAM"])
+      | _ => none
+  | _ => none
+
+/-- an observed WebSocket message `t:x<hex>` whose payload is a `data:…\n\n` event -/
+def wsMsgSSEFramed (m : String) : Bool :=
+  match parseHex (String.ofList (m.toList.drop 2)) with
+  | some p => isPrefixOfB dataPrefix p && p.reverse.take 2 == [LF, LF]
+  | none => false
+
 /-- `ws <cs> <ss> <body> <codec> <frames…> <resp…> <end> <gap> <close> <readn>
       => <upgrade> <messages…> <records…> <close> <received…> <ret> <payloads…>` -/
 def handleWS (i o : List String) : String :=
   match i, o with
   | [_, cs, ss, body, codec, frames, resp, e, _gap, closeMode, _readn], [up, msgs, recs, close, recv, ret, payloads] =>
-    match (parseListStr frames).mapM parseFrame, parseEnd e, parseHexList payloads,
-        (if codec ∈ ["j", "b", "jj", "jb", "bj", "bb"] then some () else none) with
-    | some fs, some e, some ps, some () =>
+    match (parseListStr frames).mapM parseFrame, parseEnd e, parseHexList payloads, parseWSCodec codec with
+    | some fs, some e, some ps, some (codec, extraAccept) =>
       let cs := cs = "1"
       let ss := ss = "1"
-      -- codec = <request><response> (one letter: response falls back to the request marshaler);
-      -- the frame-type check follows the REQUEST marshaler, the response opcode the RESPONSE marshaler
-      let cfg : Cfg := { cs, body := body = "1", expectBinary := codec.startsWith "b" }
-      let respBinary : Bool := codec.endsWith "b"
+      -- codec = <request><response> (one letter: no Accept value for a marshaler, the response falls back to the
+      -- request marshaler); `~variant` adds an Accept value that matches no marshaler (text/event-stream, */*, …).
+      -- The handshake headers go through the model's `bind`: frame-type check by the REQUEST marshaler, response
+      -- opcode by the RESPONSE marshaler, and NOTHING else of the handshake may show in the frames.
+      let accept : List Bytes := (if codec.length = 2 then [if codec.endsWith "b" then binMime else jsonMime] else []) ++ extraAccept
+      let contentType : List Bytes := if codec.startsWith "b" then [binMime] else if codec.length = 2 then [jsonMime] else []
+      let req : BindReq := { accept, contentType, cs, ss }
+      let sseReq := sseRequested marshalers accept
+      match bind marshalers jsonM req with
+      | .error be =>
+        if sseReq && (cs || !ss) && up = "101" then
+          "VIOL sse-not-refused (WebSocket upgraded although SSE was asked for a client-streaming or non-server-streaming method)"
+        else if up ≠ toString (bindErrStatus be) then s!"DIFF model=upgrade:{bindErrStatus be}"
+        else if ret ≠ "noupgrade" then s!"DIFF model=ret:noupgrade"
+        else s!"OK nt b=ws-refused-{up}"
+      | .ok bound =>
+      let cfg : Cfg := { cs, body := body = "1", expectBinary := bound.reqM.binary }
+      let respBinary : Bool := bound.respM.binary
       let respL := parseListStr resp
       let msgsL := parseListStr msgs
       let recsL := parseListStr recs
@@ -152,6 +221,8 @@ def handleWS (i o : List String) : String :=
         | some r => showClose (closeFrame r)
       if up ≠ "101" then s!"DIFF model=upgrade:101"
       -- the property's demands on what was observed
+      else if msgsL.any wsMsgSSEFramed then
+        "VIOL ws-frame-sse-framed (a WebSocket message carries a `data:` event instead of the codec's document: the transport's record format must not depend on the handshake's Accept header)"
       else if !(msgsL.all (fun m => m.startsWith (opc ++ ":"))) then s!"VIOL opcode (a response was not sent as a {opc} message)"
       else if recsL ≠ respL.take nOut then
         s!"VIOL out-records got={recsL.length} want={nOut} (messages read by the client differ from the responses sent)"
@@ -180,7 +251,8 @@ def handleWS (i o : List String) : String :=
           | none, some .ok => "clean"
           | none, some _ => "error"
         let mix := if cfg.expectBinary != respBinary then "-mixed" else ""
-        s!"OK{nt} b={bin}-{bend}{mix}"
+        let acc := if bound.isSSE then "-sseaccept" else if extraAccept ≠ [] then "-extraaccept" else ""
+        s!"OK{nt} b={bin}-{bend}{mix}{acc}"
     | _, _, _, _ => "BAD ws fields"
   | _, _ => "BAD ws arity"
 
@@ -201,7 +273,9 @@ def handleBind (i o : List String) : String :=
       let b01 (b : Bool) : String := if b then "1" else "0"
       let exp : List String :=
         match bind marshalers jsonM req with
-        | .ok b => ["ok", toHex b.reqM.mime, b01 b.reqM.binary, toHex (responseContentType b), b01 b.respM.binary, b01 b.respM.stream]
+        | .ok b => ["ok", toHex b.reqM.mime, b01 b.reqM.binary, toHex (responseContentType b), b01 b.respM.binary, b01 b.respM.stream] ++
+            -- `Transcode` returns the bare document of the marshaler (`transcodeMsg`), whatever the binding says about SSE
+            (match o[7]?.bind parseHex with | some bare => [toHex (transcodeMsg b bare), toHex bare] | none => ["?", "?"])
         | .error .unsupportedMedia => ["err", "3", "415"]
         | .error _ => ["err", "3", "0"]
       let mustRefuse := sseReq && (cs || !ss)
@@ -209,6 +283,8 @@ def handleBind (i o : List String) : String :=
       else if mustRefuse && o ≠ ["err", "3", "0"] then s!"VIOL sse-refusal-missing got={o} want=InvalidArgument"
       else if sseReq && !mustRefuse && o.head? = some "ok" && o[3]? ≠ some (toHex sseMime) then
         s!"VIOL sse-content-type got={o[3]?.getD "-"} want={toHex sseMime}"
+      else if o.head? = some "ok" && o[6]? ≠ o[7]? then
+        "VIOL transcode-framed (the per-message Transcode of the bound response transcoder is not the marshaler's bare document: record framing belongs to the stream encoder; WebSocket frames are built from Transcode)"
       else if o ≠ exp then s!"DIFF model={exp}"
       else
         let br := if mustRefuse then "bind-sse-refused" else if sseReq then "bind-sse"
@@ -327,7 +403,30 @@ def handleGlue (i o : List String) : String :=
     | _, _ => "BAD glue fields"
   | _, _ => "BAD glue arity"
 
+/-- `cr <reason> => <closeReasonWhole(reason)> <utf8.ValidString(reason)> <strings.ToValidUTF8(reason)>` — the real
+    `webbridge.closeReasonWhole`, Go's validator and sanitiser against `closeReasonWhole`, `ValidUTF8`, `toValidUTF8`. -/
+def handleCR (i o : List String) : String :=
+  match i, o with
+  | [_, r], [cr, valid, tv] =>
+    match parseHex r, parseHex cr, parseHex tv with
+    | some r, some cr, some tv =>
+      -- the property's demands on the observed reason: readable by a client (valid UTF-8), fits a control frame
+      if !ValidUTF8 cr then "VIOL close-reason-invalid-utf8 (clients fail the connection instead of reporting code and reason)"
+      else if cr.length > 123 then s!"VIOL close-reason-too-long len={cr.length}"
+      else if !isPrefixOfB cr (toValidUTF8 r) then "VIOL close-reason-not-a-prefix (of the sanitised reason)"
+      else if (toValidUTF8 r).length > 123 && cr.length < 120 then s!"VIOL close-reason-overcut len={cr.length} (more than 3 bytes lost)"
+      -- model = implementation
+      else if (valid = "1") != ValidUTF8 r then s!"DIFF model=valid:{ValidUTF8 r}"
+      else if tv != toValidUTF8 r then s!"DIFF model=toValidUTF8:{toHex (toValidUTF8 r)}"
+      else if cr != closeReasonWhole r then s!"DIFF model=closeReasonWhole:{toHex (closeReasonWhole r)}"
+      else
+        let br := if (toValidUTF8 r).length > 123 then (if cr.length < 123 then "cr-backed-off" else "cr-cut") else "cr-short"
+        s!"OK nt b={br}{if ValidUTF8 r then "" else "-sanitised"}"
+    | _, _, _ => "BAD cr fields"
+  | _, _ => "BAD cr arity"
+
 def handle : Handler
+  | "cr" :: i, o => handleCR ("cr" :: i) o
   | "glue" :: i, o => handleGlue ("glue" :: i) o
   | "http" :: i, o => handleHTTP ("http" :: i) o
   | "ws" :: i, o => handleWS ("ws" :: i) o
